@@ -482,8 +482,86 @@ def norecursive_case(chk, i):
     return Verdict(HELD, name, obs=obs, nontrivial=obs["norecursive_types_compared"] >= 4, key=name)
 
 
+ALIAS_TARGETS = ["unsigned int", "short", "long", "unsigned char", "double", "int %s[4]", "void *%s", "char %s[40]", "unsigned long long"]
+NO_TRAITS = {"copy": "Copy", "debug": "Debug", "default": "Default", "hash": "Hash", "partialeq": "PartialEq"}
+
+
+def alias_case(chk, i):
+    """typedefs emitted as NEW TYPES (--default-alias-style new_type[_deref] / --new-type-alias): the wrapper is a type of its own, so a
+    --no-<trait> pattern naming the ALIAS removes the trait from the wrapper (whatever the wrapped type derives), an alias nobody excluded
+    keeps what the wrapped type has, and the bindings still compile (containers of the excluded wrapper lose the trait too)."""
+    rng = chk.rng("alias", i)
+    model = G.Gen(rng, dict(SPEC_CFG, p_anon=0.0, p_inline_named=0.0, p_tagless_typedef=0.0, p_bitfield=0.0)).generate()
+    d = chk.dir("al%d" % (i % 32))
+    named = [r_ for r_ in model.records if r_.name]
+    lines, aliases = [], []          # aliases: (alias name, wrapped rust name or None)
+    for k in range(rng.randint(3, 7)):
+        an = "Al%d" % k
+        if named and rng.random() < 0.45:
+            r_ = rng.choice(named)
+            lines.append("typedef %s %s %s;" % (r_.kw, r_.name, an))
+            aliases.append((an, r_.rust_name))
+        else:
+            t_ = rng.choice(ALIAS_TARGETS)
+            lines.append("typedef %s;" % (t_ % an if "%s" in t_ else "%s %s" % (t_, an)))
+            aliases.append((an, None))
+    lines.append("struct AlHolder { %s };" % " ".join("%s m%d;" % (an, k) for k, (an, _) in enumerate(aliases)))
+    if rng.random() < 0.5:
+        lines.append("typedef %s AlOfAl;" % aliases[0][0])            # a new type of a new type
+        aliases.append(("AlOfAl", aliases[0][0]))
+    text = model.header() + "\n".join(lines) + "\n"
+    hdr = write(os.path.join(d, "al%d.h" % i), text)
+    flags = list(ALL_DERIVES) + ["--with-derive-partialeq"]
+    flags = sorted(set(flags) - {"--with-derive-ord", "--with-derive-partialord"} if rng.random() < 0.5 else set(flags))
+    style = rng.choice(["new_type", "new_type_deref", "pattern"])
+    flags += ["--new-type-alias", "Al.*"] if style == "pattern" else ["--default-alias-style", style]
+    excluded = {}
+    for an, _ in rng.sample(aliases, rng.randint(1, min(3, len(aliases)))):
+        tr = rng.choice(sorted(NO_TRAITS))
+        excluded[an] = tr
+        flags += ["--no-" + tr, an]
+    name = "alias-%d" % i
+    b = os.path.join(d, "b%d.rs" % i)
+    rc, so, se, _ = sh([build.BINDGEN, hdr] + flags + ["--no-layout-tests", "-o", b], timeout=120, cpu=100)
+    if rc != 0:
+        return Verdict(INCONCLUSIVE, name, "bindgen failed " + se[-200:])
+    inv = htypes.inventory(b)
+    if "error" in inv:
+        return Verdict(INCONCLUSIVE, name, "parse")
+    btext = open(b).read()
+    files = {"header.h": text, "flags.txt": " ".join(flags), "bindings.rs": btext}
+    items = {it["name"]: set(it.get("derives", [])) & set(NINE) for it in inv["items"] if it["kind"] in ("struct", "union")}
+    obs = {"alias_headers": 1, "newtype_aliases_checked": 0, "excluded_aliases_checked": 0}
+    problems = []
+    for an, wrapped in aliases:
+        if an not in items:
+            continue
+        obs["newtype_aliases_checked"] += 1
+        tr = excluded.get(an)
+        if tr:
+            obs["excluded_aliases_checked"] += 1
+            if NO_TRAITS[tr] in items[an]:
+                problems.append("new type %s derives %s although --no-%s names it" % (an, NO_TRAITS[tr], tr))
+        elif wrapped in items and not any(x in excluded for x in (wrapped,)):
+            # nothing excludes the alias: it is no poorer than the struct it wraps (compared on the traits both could have)
+            lost = items[wrapped] - items[an]
+            if lost:
+                problems.append("new type %s lacks %s that the wrapped %s derives" % (an, sorted(lost), wrapped))
+    w = write(os.path.join(d, "al%d_lib.rs" % i), "#![allow(warnings)]\n" + btext)
+    rcr, sor, ser, _ = sh(["rustc", "--edition", "2021", "--crate-type", "lib", "--emit=metadata", "-o", os.path.join(d, "al%d.rmeta" % i), w], timeout=120)
+    if rcr != 0:
+        if re.search(r"error\[E0(204|277|369|599)\]", ser):
+            problems.append("a derive in the bindings is rejected by rustc: " + htypes.first_error(ser)[:500])
+        else:
+            return Verdict(INCONCLUSIVE, name, "bindings do not compile (C01's): " + htypes.first_error(ser)[:300], obs=obs)
+    if problems:
+        return Verdict(VIOLATED, name, "; ".join(problems[:6]), files=files, obs=obs)
+    return Verdict(HELD, name, obs=obs, nontrivial=obs["excluded_aliases_checked"] >= 1 and obs["newtype_aliases_checked"] >= 2, key=name)
+
+
 def run(chk):
     chk.map(lambda i: norecursive_case(chk, i), range(chk.pick(30, 300)), budget_s=chk.pick(200, 900))
+    chk.map(lambda i: alias_case(chk, i), range(chk.pick(30, 300)), budget_s=chk.pick(200, 900))
     chk.map(lambda i: spec_case(chk, i), range(chk.pick(120, 1500)), budget_s=chk.pick(300, 2400))
     chk.map(lambda i: beh_case(chk, i), range(chk.pick(60, 600)), budget_s=chk.pick(300, 2400))
     chk.map(lambda i: beh_case(chk, i + 100000, use_miri=True), range(chk.pick(6, 60)), budget_s=chk.pick(300, 1800), jobs=8)
@@ -496,6 +574,8 @@ def run(chk):
              "added to a copy of the bindings. (2) case = generated graph with --impl-debug/--impl-partialeq/--with-derive-default: a Rust "
              "program fills objects member by member, then checks that every member of a hand-written Default is zero, that == "
              "is true for identical objects and false after changing exactly one member (each member and bit-field in turn), and that "
-             "{:?} does not panic; a sample of the same programs runs under Miri. Non-trivial = >= 2 types / checks.",
+             "{:?} does not panic; a sample of the same programs runs under Miri. (3) typedefs emitted as new types with --no-<trait> patterns "
+             "naming the alias: the wrapper lacks the excluded trait, an alias nobody excluded derives what the wrapped struct derives, rustc "
+             "accepts every derive. Non-trivial = >= 2 types / checks.",
         assumptions=["my specification covers the plain-data subset only; disagreements that rustc does not confirm are listed as notes, never verdicts",
                      "derives beyond the specification are not judged (rustc accepting them is C01's oracle)"])
